@@ -1033,14 +1033,14 @@ Lemma monitor_step_st mc cc s op ob :
   ma_st (fst (monitor_step mc cc s op ob)) = fst (mon_C07 cc (ma_st s) (ms_marked (ma_core s)) op ob).
 Proof.
   unfold monitor_step. destruct (mon_C07 cc (ma_st s) (ms_marked (ma_core s)) op ob) as [st' v07].
-  destruct (mon_C08 cc (ma_lt s) op ob) as [lt' v08]. destruct (mon_C15 cc (ma_core s) (ma_rtt s) op ob) as [rt' v15].
+  destruct (mon_C08 cc (ma_lt s) op ob) as [lt' v08]. destruct (mon_C15 mc cc (ma_core s) (ma_rtt s) op ob) as [rt' v15].
   reflexivity.
 Qed.
 Lemma monitor_step_lt mc cc s op ob :
   ma_lt (fst (monitor_step mc cc s op ob)) = fst (mon_C08 cc (ma_lt s) op ob).
 Proof.
   unfold monitor_step. destruct (mon_C07 cc (ma_st s) (ms_marked (ma_core s)) op ob) as [st' v07].
-  destruct (mon_C08 cc (ma_lt s) op ob) as [lt' v08]. destruct (mon_C15 cc (ma_core s) (ma_rtt s) op ob) as [rt' v15].
+  destruct (mon_C08 cc (ma_lt s) op ob) as [lt' v08]. destruct (mon_C15 mc cc (ma_core s) (ma_rtt s) op ob) as [rt' v15].
   reflexivity.
 Qed.
 Lemma monitor_step_verdicts2 mc cc s op ob k b cl :
@@ -1051,7 +1051,7 @@ Lemma monitor_step_verdicts2 mc cc s op ob k b cl :
   /\ (k = 13 -> b = mon_C13 cc op ob).
 Proof.
   unfold monitor_step. destruct (mon_C07 cc (ma_st s) (ms_marked (ma_core s)) op ob) as [st' v07].
-  destruct (mon_C08 cc (ma_lt s) op ob) as [lt' v08]. destruct (mon_C15 cc (ma_core s) (ma_rtt s) op ob) as [rt' v15].
+  destruct (mon_C08 cc (ma_lt s) op ob) as [lt' v08]. destruct (mon_C15 mc cc (ma_core s) (ma_rtt s) op ob) as [rt' v15].
   cbn [snd In]. intros Hin.
   repeat (destruct Hin as [Hin|Hin];
           [inversion Hin; subst; (split; [|split; [|split]]); intros Hk; try discriminate Hk; try reflexivity; split; reflexivity|]).
@@ -1061,7 +1061,7 @@ Lemma monitor_step_has2 mc cc s op ob k :
   In k [7; 8; 10; 13] -> exists b cl, In (k, b, cl) (snd (monitor_step mc cc s op ob)).
 Proof.
   unfold monitor_step. destruct (mon_C07 cc (ma_st s) (ms_marked (ma_core s)) op ob) as [st' v07].
-  destruct (mon_C08 cc (ma_lt s) op ob) as [lt' v08]. destruct (mon_C15 cc (ma_core s) (ma_rtt s) op ob) as [rt' v15].
+  destruct (mon_C08 cc (ma_lt s) op ob) as [lt' v08]. destruct (mon_C15 mc cc (ma_core s) (ma_rtt s) op ob) as [rt' v15].
   cbn [snd]. intros Hk. cbn [In] in Hk.
   destruct Hk as [<-|[<-|[<-|[<-|[]]]]]; eexists _, _; cbn [In]; auto 15.
 Qed.
